@@ -713,9 +713,6 @@ func driveArshal(args map[string]string) error {
 
 func init() { commands["drive-arshal"] = driveArshal }
 
-func c14Exec(c *arshalCase) { c.norm() }
-func c08Exec(c *arshalCase) { c.norm() }
-
 // numProjOvf is numProj plus, per number, whether the literal overflows float64.
 func numProjOvf(src []byte) [][]any {
 	out := [][]any{}
@@ -741,4 +738,282 @@ func strconvParse(lit string) (float64, bool) {
 		return 0, true
 	}
 	return f, false
+}
+
+// ------------------------------------------------------------------ C14: merge
+
+func mergeAny(a, b any) any {
+	am, ok1 := a.(map[string]any)
+	bm, ok2 := b.(map[string]any)
+	if !ok1 || !ok2 {
+		return b
+	}
+	out := map[string]any{}
+	for k, v := range am {
+		out[k] = v
+	}
+	for k, v := range bm {
+		if old, ok := out[k]; ok {
+			out[k] = mergeAny(old, v)
+		} else {
+			out[k] = v
+		}
+	}
+	return out
+}
+
+func c14Type(r *rand.Rand) *tdesc {
+	c := &typeCfg{maxDepth: 1 + r.IntN(4), maxFields: 1 + r.IntN(5), tags: r.IntN(2) == 0, anys: true, floats: true, mergeable: true, mapKeys: []string{"string"}, plainNames: true}
+	t := genTypeDesc(r, c, 0)
+	if t.K != "struct" && t.K != "map" && t.K != "ptr" && r.IntN(3) != 0 { // mostly object-shaped roots
+		t = &tdesc{K: "struct", Fields: []fdesc{{Go: "A", T: t}, {Go: "B", T: genTypeDesc(r, c, 1)}, {Go: "C", T: &tdesc{K: "map", Key: &tdesc{K: "string"}, Elem: genTypeDesc(r, c, 2)}}}}
+	}
+	return t
+}
+
+func c14Exec(c *arshalCase) {
+	defer func() {
+		if r := recover(); r != nil {
+			c.Panic = fmt.Sprint(r)
+		}
+		c.norm()
+	}()
+	r := rand.New(rand.NewPCG(c.Seed[0], c.Seed[1]))
+	td := c14Type(r)
+	t := buildType(td)
+	c.Type = truncate(t.String(), 300)
+	k := 2 + r.IntN(3)
+	var texts [][]byte
+	for i := 0; i < k; i++ {
+		var sb strings.Builder
+		genJSONFor(r, td, &sb, 0)
+		texts = append(texts, []byte(sb.String()))
+	}
+	// JSON-level merge computed by the driver; the specification re-derives it
+	var acc any
+	for i, tx := range texts {
+		var v any
+		if err := jsonv2.Unmarshal(tx, &v); err != nil {
+			c.Note = "generator produced invalid text: " + err.Error()
+			return
+		}
+		if i == 0 {
+			acc = v
+		} else {
+			acc = mergeAny(acc, v)
+		}
+	}
+	merged, err := jsonv2.Marshal(acc, jsonv2.Deterministic(true))
+	if err != nil {
+		c.Note = err.Error()
+		return
+	}
+	c.Texts = nil
+	for _, tx := range texts {
+		c.Texts = append(c.Texts, ints(tx))
+	}
+	c.Texts = append(c.Texts, ints(merged))
+	chain := reflect.New(t)
+	chainOK := true
+	for i, tx := range texts {
+		err := jsonv2.Unmarshal(tx, chain.Interface())
+		c.Outs = append(c.Outs, okBytes(fmt.Sprintf("chain%d", i+1), nil, err))
+		if err != nil {
+			chainOK = false
+			c.Note = truncate(err.Error(), 200)
+			break
+		}
+	}
+	single := reflect.New(t)
+	errS := jsonv2.Unmarshal(merged, single.Interface())
+	c.Outs = append(c.Outs, okBytes("single", nil, errS))
+	c.Flags = []bool{chainOK, errS == nil, chainOK && errS == nil && equalNorm(chain.Elem(), single.Elem())}
+	if chainOK && errS == nil && !c.Flags[2] {
+		a, _ := jsonv2.Marshal(chain.Elem().Interface(), jsonv2.Deterministic(true))
+		b, _ := jsonv2.Marshal(single.Elem().Interface(), jsonv2.Deterministic(true))
+		c.Note = truncate("chain="+string(a)+" single="+string(b), 600)
+	}
+}
+
+// ------------------------------------------------------------------ C08: ambiguous input
+
+// objectSpans finds the objects of a text: [start of '{', position of its '}'] plus the raw
+// spans of each member (name literal, value) so that one can be repeated.
+type memberSpan struct{ nameS, nameE, valS, valE int }
+
+func objectMembers(text []byte) (objs [][]memberSpan, closers []int) {
+	d := jsontext.NewDecoder(bytes.NewReader(text), jsontext.AllowDuplicateNames(true), jsontext.AllowInvalidUTF8(true))
+	type frame struct {
+		obj     bool
+		members []memberSpan
+		cur     memberSpan
+		n       int
+	}
+	var stack []frame
+	valueDone := func(s, e int) {
+		if len(stack) == 0 {
+			return
+		}
+		f := &stack[len(stack)-1]
+		if !f.obj {
+			return
+		}
+		if f.n%2 == 0 {
+			f.cur = memberSpan{nameS: s, nameE: e}
+		} else {
+			f.cur.valS, f.cur.valE = s, e
+			f.members = append(f.members, f.cur)
+		}
+		f.n++
+	}
+	var starts []int
+	for {
+		k := d.PeekKind()
+		tok, err := d.ReadToken()
+		if err != nil {
+			return objs, closers
+		}
+		end := int(d.InputOffset())
+		switch k {
+		case '{', '[':
+			stack = append(stack, frame{obj: k == '{'})
+			starts = append(starts, end-1)
+		case '}', ']':
+			f := stack[len(stack)-1]
+			stack = stack[:len(stack)-1]
+			st := starts[len(starts)-1]
+			starts = starts[:len(starts)-1]
+			if f.obj {
+				objs = append(objs, f.members)
+				closers = append(closers, end-1)
+			}
+			valueDone(st, end)
+		default:
+			n := len(tok.String())
+			if k == '"' { // find the literal's extent: scan back from end for the opening quote is unsafe; re-scan
+				n = literalLen(text, end)
+			}
+			valueDone(end-n, end)
+		}
+	}
+}
+
+// literalLen returns the length of the string literal that ends at end.
+func literalLen(text []byte, end int) int {
+	// walk forward from every quote position is quadratic; texts are small
+	for s := end - 2; s >= 0; s-- {
+		if text[s] != '"' {
+			continue
+		}
+		v := jsontext.Value(text[s:end])
+		if v.IsValid(jsontext.AllowInvalidUTF8(true)) && v.Kind() == '"' {
+			bs := 0
+			for p := s - 1; p >= 0 && text[p] == '\\'; p-- {
+				bs++
+			}
+			if bs%2 == 0 {
+				return end - s
+			}
+		}
+	}
+	return 1
+}
+
+func c08Type(r *rand.Rand) *tdesc {
+	c := &typeCfg{maxDepth: 1 + r.IntN(3), maxFields: 1 + r.IntN(5), tags: r.IntN(2) == 0, anys: true, rawValues: true, floats: true, mapKeys: []string{"string", "int"}, plainNames: true}
+	t := genTypeDesc(r, c, 0)
+	if r.IntN(2) == 0 {
+		t = &tdesc{K: "struct", Fields: []fdesc{{Go: "A", T: t}, {Go: "B", T: &tdesc{K: "any"}}, {Go: "C", T: &tdesc{K: "map", Key: &tdesc{K: "string"}, Elem: genTypeDesc(r, c, 2)}}, {Go: "D", T: &tdesc{K: "raw"}}}}
+	}
+	return t
+}
+
+func renderResult(p reflect.Value, err error) []any {
+	if err != nil {
+		return []any{false, []int{}}
+	}
+	b, e2 := jsonv2.Marshal(p.Elem().Interface(), jsonv2.Deterministic(true), jsontext.AllowInvalidUTF8(true), jsontext.AllowDuplicateNames(true))
+	if e2 != nil {
+		b = []byte("unrenderable")
+	}
+	return []any{true, ints(b)}
+}
+
+func c08Exec(c *arshalCase) {
+	defer func() {
+		if r := recover(); r != nil {
+			c.Panic = fmt.Sprint(r)
+		}
+		c.norm()
+	}()
+	r := rand.New(rand.NewPCG(c.Seed[0], c.Seed[1]))
+	td := c08Type(r)
+	t := buildType(td)
+	c.Type = truncate(t.String(), 300)
+	var sb strings.Builder
+	genJSONFor(r, td, &sb, 0)
+	clean := []byte(sb.String())
+	text := clean
+	mode := []string{"dup", "dup", "dup-escaped", "badutf8", "clean"}[r.IntN(5)]
+	switch mode {
+	case "dup", "dup-escaped":
+		objs, closers := objectMembers(clean)
+		var cand []int
+		for i, ms := range objs {
+			if len(ms) > 0 {
+				cand = append(cand, i)
+			}
+		}
+		if len(cand) == 0 {
+			mode = "clean"
+			break
+		}
+		oi := cand[r.IntN(len(cand))]
+		m := objs[oi][r.IntN(len(objs[oi]))]
+		name := clean[m.nameS:m.nameE]
+		if mode == "dup-escaped" {
+			var tok string
+			jsonv2.Unmarshal(name, &tok)
+			var nb strings.Builder
+			genStringLit(r, &genCfg{escapes: true}, []rune(tok), &nb)
+			if nb.String() == string(name) && len(tok) > 0 {
+				nb.Reset()
+				fmt.Fprintf(&nb, `"\u%04x%s"`, []rune(tok)[0], string([]rune(tok)[1:]))
+				if []rune(tok)[0] > 0xffff {
+					nb.Reset()
+					nb.Write(name)
+				}
+			}
+			name = []byte(nb.String())
+		}
+		ins := append(append(append([]byte(","), name...), ':'), clean[m.valS:m.valE]...)
+		text = append(append(append([]byte{}, clean[:closers[oi]]...), ins...), clean[closers[oi]:]...)
+	case "badutf8":
+		// damage one string literal of the text
+		var pos []int
+		in := false
+		for i, b := range clean {
+			if b == '"' && (i == 0 || clean[i-1] != '\\') {
+				in = !in
+				if in {
+					pos = append(pos, i+1)
+				}
+			}
+		}
+		if len(pos) == 0 {
+			mode = "clean"
+			break
+		}
+		p := pos[r.IntN(len(pos))]
+		bad := [][]byte{{0xff}, {0xc0, 0x80}, {0xed, 0xa0, 0x80}, {0xe2, 0x82}}[r.IntN(4)]
+		text = append(append(append([]byte{}, clean[:p]...), bad...), clean[p:]...)
+	}
+	c.Note = mode
+	c.Texts = [][]int{ints(text)}
+	for i, o := range [][]jsonv2.Options{{}, {jsontext.AllowDuplicateNames(true)}, {jsontext.AllowInvalidUTF8(true)}, {jsontext.AllowDuplicateNames(true), jsontext.AllowInvalidUTF8(true)}} {
+		p := reflect.New(t)
+		err := jsonv2.Unmarshal(text, p.Interface(), o...)
+		res := renderResult(p, err)
+		c.Outs = append(c.Outs, []any{[]string{"default", "ad", "ai", "ad+ai"}[i], res[0], res[1]})
+	}
 }
